@@ -15,6 +15,9 @@ CHECKS = {
  "C13": dict(cat="proof", tech="Coq proof (batching invariant, NOOP-erasure lemma, nesting by mutual induction on fuel over the logging interpreter) + trace/stream correspondence",
    text="The interpreter model records the operation of every trace row. Coq theorems: the batches of a span hold exactly the span's operations in order (c13_batching_keeps_ops), executing a batch adds nothing but NOOPs (c13_batch_adds_only_noops), a span is recorded as SPAN, batches separated by RESPAN, END (c13_span_shape), and in every successful execution block starts and ENDs are properly nested with depth 0 at the end (c13_nested). The recorded stream of the model is compared row by row with the op-bit columns of the real trace for spans of every push/non-push pattern up to a bound (exhaustive), multi-batch spans and generated MAST programs; group counter, last-row hash and HALT padding are checked on the real trace by rule.",
    note="Trusted: Coq kernel; hand-written interpreter/batching model tied to processor/src/lib.rs and decoder/mod.rs by the sampled stream correspondence; group counter, op index and block address columns are not modelled in Coq (checked by rule on the real trace). No axioms."),
+ "C14": dict(cat="proof", tech="Coq proof (growable-column invariant; clk semantics) + step-through correspondence against the model state after t cycles + Rust-vs-Rust determinism/decorator runs",
+   text="Coq theorems: rows recorded in a growable trace column are the written values whatever the initial capacity, growth never disturbs written rows and no write is out of bounds (c14_hint_independent, c14_growth_keeps_rows); clk pushes the clock of its own row. The model interpreter has no hint/tracing/debug parameter. Checked against the implementation: the whole main trace (fingerprint over all columns) and outputs are identical for expected-cycle hints 2^6..2^12; every state reported by execute_iter (forward, and under a pseudo-random next/back walk) equals the model state after t cycles in clk, ctx, fmp, top 16 and memory; decorators, tracing and debug-mode assembly leave results and cycle counts unchanged. The overflow part of the iterator's stack is a listed known finding (pinned by an existing test).",
+   note="Trusted: Coq kernel; model of ensure_trace_capacity (coq/Vm/History.v) written from system/mod.rs and stack/trace.rs; interpreter model tied by the iter correspondence; decorators are not modelled (observed). No axioms."),
  "C15": dict(cat="proof", tech="Coq proof (induction on fuel over the mutual interpreter, limit-parametric invariant) + model/implementation correspondence",
    text="Coq theorems c15_exact (same result under every limit >= the cycle count, CycleLimit after exactly m+1 clock increments below it), c15_total (no fuel exhaustion: every program stops within the limit) and c15_options over the interpreter model coq/Vm/Exec.v, proved for all programs, inputs and limits; the model is tied to processor/src by running the extracted model and the real processor on the same generated programs and limits.",
    note="Trusted: Coq kernel, extraction (ExtrOcamlBasic+ExtrOcamlZBigInt+ExtrOcamlNativeString), the exec correspondence (sampled), hand-written model of execute_code_block/advance_clock/ExecutionOptions::new. No axioms."),
